@@ -91,6 +91,15 @@ def build_cases(ctx, n_part, n_random, mc=True, alu_cap_quick=1100):
     cases += alu
     rng = vf.Rng(ctx.seed)
     cases += pvmgen.gen_random_cases(rng, n_random)
+    # a seeded share of the memory partition (PVM_MemPart; whole in C05): final memory is part of C01's statement
+    memp = vf.gen_cases(ctx, "PVM_MemGen", {"Tier": '"%s"' % ctx.tier}, timeout=1500, heap="8g", tag="mem")
+    mem = [json.loads(l) for l in vf.read_lines(memp)]
+    keep = 150 if quick else 1500
+    mem = [c for c in mem if rng.n(len(mem)) < keep]
+    for i, c in enumerate(mem):
+        c["id"] = "mem%d" % i
+        c["fx"] = []
+    cases += mem
     return cases
 
 
